@@ -377,7 +377,7 @@ static std::string handleX(const std::string& line, std::string& stat, bool& tai
     cs.lw = c.value("lw", -1);
     cs.desc = std::to_string(c.value("id", 0)) + "|" + c.value("d", "");
     const std::string dl = c.value("dl", "mem");
-    bool record = g_traceEvery > 0 && (g_caseNo++ % g_traceEvery) == 0;
+    bool record = g_traceEvery > 0 && (g_caseNo++ % g_traceEvery) == 0 && c.value("tr", true);
     XRes r;
     long long id = 0;
     if (dl == "mem") {
